@@ -514,4 +514,59 @@ example : ((xexec (fun _ => 0) (fun _ => 0) true disciplined
     [.uopen 0 3, .uunlock 0, .uclose 0, .aopen 0 3, .st 0, .st 0, .st 0, .st 0, .st 0, .st 0, .aclose 0] (xinit 1)).map
       (fun x => (x.sys.pc 0, x.sys.recs, x.upc 0, x.names 0 3))) = some (.doneOk 1, [none, some 0], .done, none) := by decide
 
+/-! ### the index a request reports (round 5) -/
+
+/-- read from the source on every run, for every call of cmsys.AppendRecord in the repository: a
+caller that hands an index on to its own caller hands on the one AppendRecord returned (data flow:
+the call's result reaches the function's result); none reports an index obtained another way. -/
+theorem source_reported_index_is_appended : reportsAppendedOf Gen.Lock.appendIndex = true := by decide
+
+theorem source_append_index_covered :
+    Gen.Lock.appendIndex.map (·.1) = Gen.Lock.appendCallers.map (·.1) := by decide
+
+/-- a request that reports the index its append returned reports — whenever it does so — a slot no
+other request reports, and that slot holds its own record. -/
+theorem reported_appended_distinct_intact (s : Sys) (h : Reachable proc true n0 s) (t u i : Nat)
+    (ht : reportSlot .appended s t = some i) (hu : reportSlot .appended s u = some i) :
+    t = u ∧ s.recs[i]? = some (some t) := by
+  have key : ∀ v, reportSlot .appended s v = some i → s.pc v = .doneOk i := by
+    intro v hv
+    unfold reportSlot at hv
+    cases hpc : s.pc v <;> rw [hpc] at hv <;> simp at hv
+    subst hv; rfl
+  have pt := key t ht
+  have pu := key u hu
+  exact ⟨distinct_indices proc n0 s h t u i (by rw [pt]; rfl) (by rw [pu]; rfl),
+    (records_intact proc n0 s h t i pt).1⟩
+
+/-- … and later appends do not change that: the report is the same in every later state. -/
+theorem reported_appended_stable (s s' : Sys) (t u : Nat) (hs : step proc true s u = some s') (hne : u ≠ t) (i : Nat)
+    (ht : reportSlot .appended s t = some i) : reportSlot .appended s' t = some i := by
+  unfold reportSlot at ht ⊢
+  rw [step_pc_other proc true s s' u t hs (fun e => hne e.symm)]
+  exact ht
+
+/-- the negation for "index := number of records, read after the unlock": call 0 (process 0) appends
+and returns; call 1 (process 1) appends and returns; then call 0 looks at the file.  Both report
+slot 1, which holds call 1's record; slot 0 is reported by nobody. -/
+def lateHistory : List Act := [.st 0, .st 0, .st 0, .st 0, .st 0, .st 0, .st 1, .st 1, .st 1, .st 1, .st 1, .st 1]
+
+def lateState : Sys := (exec (fun t => t % 2) true lateHistory (init 0)).getD (init 0)
+
+theorem lateState_eq : exec (fun t => t % 2) true lateHistory (init 0) = some lateState := by
+  have : ∀ o : Option Sys, o.isSome = true → o = some (o.getD (init 0)) := by
+    intro o h; cases o <;> simp at h ⊢
+  exact this _ (by decide)
+
+theorem length_after_unlock_shares_index :
+    Reachable (fun t => t % 2) true 0 lateState ∧
+      lateState.pc 0 = .doneOk 0 ∧ lateState.pc 1 = .doneOk 1 ∧
+      reportSlot .lengthAfter lateState 0 = some 1 ∧ reportSlot .appended lateState 1 = some 1 ∧
+      lateState.recs[1]? = some (some 1) := by
+  refine ⟨?_, by decide, by decide, by decide, by decide, by decide⟩
+  exact exec_reachable (fun t => t % 2) 0 true lateHistory (init 0) _ .init lateState_eq
+
+/-- with the returned index the same state has the two requests at slots 0 and 1. -/
+example : reportSlot .appended lateState 0 = some 0 ∧ reportSlot .appended lateState 1 = some 1 := by decide
+
 end PttVerif.C14.Props
